@@ -648,6 +648,8 @@ def generate(name, outdir):
         return False, f"translator: {name}: unsupported or changed source: {e}"
     except (OSError, SyntaxError) as e:
         return False, f"translator: {name}: cannot read the source: {e}"
+    except Exception as e:      # fail closed: a source shape the translator did not foresee is a broken obligation, not a crash
+        return False, f"translator: {name}: unsupported source ({type(e).__name__}: {e})"
     os.makedirs(outdir, exist_ok=True)
     p = os.path.join(outdir, n + ".v")
     old = open(p).read() if os.path.exists(p) else None
